@@ -260,7 +260,7 @@ pub fn prop(tier: Tier, _seed: u64) -> Prop {
                 ctx.violation(format!("C17|F32->{:?}|NaN not mapped into range", d.ck()), || json!({"f(NaN)": o[0]}));
             }
         }
-    }));
+    }).isolated());
 
     // (2) widening round trips on every value
     let rts: Vec<(PT, PT)> = vec![(PT::U8, PT::U16), (PT::U8, PT::I32), (PT::U8, PT::F32), (PT::U16, PT::I32), (PT::U16, PT::F32)];
@@ -297,7 +297,7 @@ pub fn prop(tier: Tier, _seed: u64) -> Prop {
         }
         ctx.class(mix(ns.idx() as u64, ws.idx() as u64 + 100));
         ctx.outcome(fnv(&wide.iter().flat_map(|v| v.to_bits().to_le_bytes()).collect::<Vec<u8>>()));
-    }));
+    }).isolated());
 
     // (3) multi-component types agree with the scalar map at every component position
     let multi: Vec<(PT, PT)> = {
@@ -344,7 +344,7 @@ pub fn prop(tier: Tier, _seed: u64) -> Prop {
             }
         }
         ctx.class(mix(s.idx() as u64, d.idx() as u64 + 200));
-    }));
+    }).isolated());
 
     // (4) acceptance / rejection matrix and untouched destination
     p.spaces.push(Space::new("type-pair and size matrix", 169 * 4, move |idx, ctx| {
@@ -396,7 +396,7 @@ pub fn prop(tier: Tier, _seed: u64) -> Prop {
         }
         ctx.class(mix(mix(s.idx() as u64, d.idx() as u64), variant + 300));
         ctx.outcome(mix(r.is_ok() as u64, fnv(dst.bytes())));
-    }));
+    }).isolated());
 
     p.rule = "all 16 scalar (src,dst) component-kind pairs over the whole enumerated source domain (all 256 / 65536 integers; I32: ±2^k±{0,1}, stride sweep, widening images ± half-quantum; F32: 2^8/2^12 values per binade for exponents -30..1 both signs, ±0, denormals, ±1±eps, ±inf, NaN, ±3e38, every k/255, k/65535) at 3 row widths; 5 widening round trips x 1-4 components with each value at every component position; 27 multi-component pairs vs the scalar map; the full 13x13 type matrix x 4 size variants for accept/reject. distinct_nontrivial counts component values judged".into();
     p.bounds = json!({"i32_stride": tier.pick(65521 * 16, 65521), "f32_per_binade": tier.pick(256, 4096)});
